@@ -35,10 +35,12 @@ type Sub struct {
 	SubscribeCalls map[string]int
 	closeCalls     int32
 	SubscribeErr   error
-	OnSubscribe    func(topic string)
-	OnClose        func()
-	OnCloseStart   func()
-	Buffer         int
+	// SubscribeFn, if set, is consulted first (outside the lock; it may take its time): a non-nil error is what Subscribe returns
+	SubscribeFn  func(topic string) error
+	OnSubscribe  func(topic string)
+	OnClose      func()
+	OnCloseStart func()
+	Buffer       int
 	// Drain makes Close wait (bounded by DrainBound) until every message handed to a consumer has been
 	// settled before the output channels are closed -- a subscriber that drains its in-flight messages.
 	// IgnoreCtx: subscriptions end only with Close(), not with their context (a source that keeps handing over for a while)
@@ -56,6 +58,11 @@ func NewSub(name string) *Sub {
 }
 
 func (s *Sub) Subscribe(ctx context.Context, topic string) (<-chan *message.Message, error) {
+	if fn := s.SubscribeFn; fn != nil {
+		if err := fn(topic); err != nil {
+			return nil, err
+		}
+	}
 	s.mu.Lock()
 	s.SubscribeCalls[topic]++
 	if s.SubscribeErr != nil {
